@@ -75,6 +75,9 @@ def goPanic {α} : Option α := none
     proved to decide membership on sorted lists, `containsSorted_iff`) -/
 def bigintsContainsSorted (n : Int) (xs : List Int) : Bool := P.Helpers.containsSorted n xs
 
+/-- `new(big.Int).Sqrt(x)`: floor of the square root; panics when `x` is negative -/
+def bSqrt (x : Int) : Option Int := if x < 0 then none else some (Int.ofNat (Nat.sqrt x.toNat))
+
 /-- `new(big.Int).Mul(x, y)` -/
 def bMul (x y : Int) : Int := x * y
 
